@@ -17,8 +17,14 @@ Inductive case :=
 (* the same list carried by a block that is proposed / imported on a fixture chain *)
 | CChain (height round : Z) (bid : bytes) (ps : psid) (vals : list N)
          (items : list (Z * gsig)) (accepted : bool)
+(* the list handed to consensus together with block `bid` by fast sync
+   (ReceiveBlockResult -> processBlock) on a node without votes of that round;
+   real = the block's own part-set id (count, hash); consumed = not rejected *)
+| CFastSync (height round : Z) (bid : bytes) (ps : psid) (real : N * bytes) (vals : list N)
+            (items : list (Z * gsig)) (consumed : bool)
 (* enoughVote(voted, voters) *)
 | CEnough (voted voters : N) (r : bool).
+Arguments CFastSync height%Z round%Z bid ps real vals items consumed.
 Arguments CVerify height%Z round%Z bid ps vals items o.
 Arguments CChain height%Z round%Z bid ps vals items accepted.
 
@@ -70,6 +76,8 @@ Definition check (c : case) : bool :=
       | Accept _ => acc
       | Reject => negb acc
       end
+  | CFastSync h r bid ps real vals items consumed =>
+      Bool.eqb (gt_fs_accept h r bid ps real (keys vals) items) consumed
   | CEnough c n r => Bool.eqb (enough (N.to_nat c) (N.to_nat n)) r
   end.
 
